@@ -70,7 +70,8 @@ Theorem gen_GetOrCreate_refines lg c cap s o pk res B : cinv B s o -> B + 18 <= 
     Gen.ECache_GetOrCreate keymap_call pool_Put (pool_Get c) pair_v chan_make chan_recv (create_call res) chan_close
         pair_mk delete_call pair_pk (gp cap s) pk (sheap lg s) =
       Ok ((gp cap s', v, e), sheap (lg ++ enc_evs evs) s') /\
-    cinv (B + 18) s' o' /\ bm dec (entries o') = ec_items c' /\ r = res_of v e.
+    cinv (B + 18) s' o' /\ bm dec (entries o') = ec_items c' /\ r = res_of v e /\
+    (length (entries o') <= length (entries o) + 1)%nat.
 Proof.
   intros (HR & Wi & Ho) Hb. destruct Hchan as ((c0 & Hmk) & Hcl).
   unfold ec_get, sec_lookup. cbn [ec_items ec_cap]. rewrite B_get.
@@ -89,7 +90,8 @@ Proof.
     rewrite bind_assoc, (bind_ok _ _ _ _ _ E3). cbv beta iota zeta. gp_cbn. rewrite bind_ret_l. cbv beta iota zeta.
     cbn [o_step entries fst] in HR3. rewrite o_find_kill in HR3. cbn [fst entries opos] in HR3.
     unfold ret. eexists s3, _, _, _. split; [unfold enc_evs; cbn [map concat]; rewrite app_nil_r; reflexivity|].
-    split; [split; [exact HR3|split; [eapply winv_mono; [|exact W3]; lia|exact Ho]]|]. split; [|reflexivity].
+    split; [split; [exact HR3|split; [eapply winv_mono; [|exact W3]; lia|exact Ho]]|].
+    split; [|split; [reflexivity|cbn [entries]; rewrite app_length, map_length; cbn [length]; lia]].
     cbn [entries ec_items]. rewrite B_remove, <- (B_add_absent dec _ k (OMap.e_val e0)) by apply o_find_kill. reflexivity.
   - (* miss *)
     destruct ok; [discriminate|]. cbv beta iota zeta. cbn [mapget mapfind negb].
@@ -125,16 +127,19 @@ Proof.
         unfold sheap at 1. rewrite bind_assoc, (bind_ok _ _ _ _ _ (Hdel HD _ _ _ _ _)). rewrite bind_ret_l. cbv beta iota zeta.
         unfold ret. eexists s5, _, _, _. split.
         { unfold lg1, enc_evs, dels_ev, C08_GenFn_small.dec. cbn [map concat fst snd]. rewrite app_nil_r, <- app_assoc. reflexivity. }
-        split; [split; [exact HR5|split; [eapply winv_mono; [|exact W5]; lia|exact Ho]]|]. split; [|reflexivity].
+        split; [split; [exact HR5|split; [eapply winv_mono; [|exact W5]; lia|exact Ho]]|].
+        split; [|split; [reflexivity|cbn [entries]; unfold es2; rewrite map_length, app_length; cbn [length]; lia]].
         cbn [entries ec_items fst]. rewrite B_remove. reflexivity.
       * destruct (Z.ltb_spec (Z.of_nat cap) (Z.of_nat (o_len es2))); [lia|]. rewrite bind_ret_l. cbv beta iota zeta.
         unfold ret. eexists s2, _, _, _. split; [unfold lg1, enc_evs, dels_ev; cbn [map concat]; rewrite app_nil_r; reflexivity|].
-        split; [split; [exact HR2|split; [eapply winv_mono; [|exact W2]; lia|exact Ho]]|]. split; reflexivity.
+        split; [split; [exact HR2|split; [eapply winv_mono; [|exact W2]; lia|exact Ho]]|].
+        split; [reflexivity|split; [reflexivity|cbn [entries]; unfold es2; rewrite app_length; cbn [length]; lia]].
     + (* the create function failed *)
       rewrite bind_assoc, (bind_ok _ _ _ _ _ (Hcl _ _)). cbv beta iota zeta. gp_cbn.
       cbn [mapdel filter fst negb]. rewrite Z.eqb_refl. cbn [negb is_nil]. rewrite bind_ret_l. cbv beta iota zeta.
       unfold ret. eexists s1, o, _, _. split; [unfold lg1, enc_evs; cbn [map concat]; rewrite app_nil_r, Hgm; reflexivity|].
-      split; [split; [exact HR1|split; [eapply winv_mono; [|exact W1]; lia|exact Ho]]|]. split; reflexivity.
+      split; [split; [exact HR1|split; [eapply winv_mono; [|exact W1]; lia|exact Ho]]|].
+      split; [reflexivity|split; [reflexivity|lia]].
 Qed.
 
 End GOC.
